@@ -59,8 +59,6 @@ Definition kvv_alt : Type := op * mrow * drow * crow.
 Definition kvv_case : Type :=
   (profile * value * list key) * list op * (list mrow * list drow * list crow) * list kvv_alt.
 
-Definition m_after (p : profile) (ops : list op) : store := m_run p ops.
-
 Definition alt_model (p : profile) (sid : value) (probe : list key)
   (s : store) (d : disk) (c : cloud) (o : op) : mrow * drow * crow :=
   let '(s', xm) := m_step p s o in
@@ -71,9 +69,11 @@ Definition alt_model (p : profile) (sid : value) (probe : list key)
 Definition kvv_model (c : kvv_case)
   : (list mrow * list drow * list crow) * list (mrow * drow * crow) :=
   let '((p, sid, probe), ops, _, alts) := c in
+  let s := m_run p ops in
+  let d := d_run p ops in
+  let cl := c_run p sid ops in
   ((m_rows p [] ops, d_rows p probe d_init ops, c_rows true p sid probe c_init ops),
-   map (fun a => alt_model p sid probe (m_run p ops) (d_run p ops) (c_run p sid ops)
-                   (fst (fst (fst a)))) alts).
+   map (fun a => alt_model p sid probe s d cl (fst (fst (fst a)))) alts).
 
 Definition check_kvv (c : kvv_case) : bool :=
   let '(rows, alts) := kvv_model c in
